@@ -250,6 +250,12 @@ impl Sess {
         }
     }
 
+    /// Install a default-constructed interpreter whatever the state (used by twins that model
+    /// "NEW gives a fresh interpreter" independently of how the core signals it).
+    pub fn force_fresh(&mut self) {
+        self.it = Interpreter::default();
+    }
+
     fn drain(&mut self) -> Vec<Rec> {
         self.it
             .take_output()
